@@ -326,12 +326,20 @@ def main(tier, seed):
         results += xr
     results = [r for r in results if not r.get("skipped")]
     ncalls = sum(len(t["calls"]) for r in results for t in r["tours"])
+    hist = {}
+    for r in results:
+        for l in r.get("impl", []):
+            p = l.split()
+            if p and p[0] == "C" and "->" in p:
+                key = "%s->%s" % (p[3], p[p.index("->") + 1])
+                hist[key] = hist.get(key, 0) + 1
     return lib.conclude_diff(PID, tier, seed, t0, proof, results,
                              None, features, strip_model_prefixes=("S ", "X "),
                              what="Tour operations on tours taken from Schedule::tour_of: insert_path, remove, sub_path, "
                                   "conflict, latest_not_reaching_node, check_removable, replace_*_depot, overheads, "
                                   "maintenance_counter (node lists and the five caches)",
-                             extra_cov={"tour_calls": ncalls, "exhaustive_family_instances": nexh,
+                             extra_cov={"tour_calls": ncalls, "operation_outcomes": hist,
+                                        "exhaustive_family_instances": nexh,
                                         "exhaustive": False,
                                         "exhaustive_note": "thorough tier enumerates completely the family described in "
                                         "exhaustive_instances(): all tours (real and dummy), all chains as inserted paths "
